@@ -525,7 +525,12 @@ var forms = []string{"json", "download", "public"}
 // VerifyAll re-reads every object (metadata + media), every deleted name and
 // every bucket listing and compares them with the model.
 func (r *Runner) VerifyAll() string {
+	var bs []string
 	for b := range r.Buckets {
+		bs = append(bs, b)
+	}
+	sortStrings(bs)
+	for _, b := range bs {
 		for _, n := range r.M.Names(b) {
 			if mis := r.checkMeta(b, n); mis != "" {
 				return mis
@@ -539,7 +544,12 @@ func (r *Runner) VerifyAll() string {
 			return mis
 		}
 	}
+	var dk []string
 	for k := range r.Deleted {
+		dk = append(dk, k)
+	}
+	sortStrings(dk)
+	for _, k := range dk {
 		i := strings.Index(k, "/")
 		b, n := k[:i], k[i+1:]
 		if r.M.Get(b, n) != nil {
